@@ -13,7 +13,8 @@
     with a positive step the loop ends; `budgetIncrease_nonpositive_step_diverges`: with `step ≤ 0`,
     `exhaustive_stop = False` and an always-feasible rule EVERY fuel runs out (the Python loop does not
     terminate there).
-  * the same for `budgetIncreaseAll`, `MES.iterated`, `MES.iteratedAll`.
+  * the same for `budgetIncreaseAll`, `MES.iterated`, `MES.iteratedAll`
+    (unconditional termination of the iterated Equal Shares: `Properties/C09Termination.lean`).
   * `completion_extends/_feasible/_exhaustive/_extends_first`, `completionAll_keeps_all/_covers/_feasible/
     _exhaustive`.
 
@@ -585,12 +586,13 @@ theorem iterated_terminates_partial {fuel k : Nat} {b0 : Rat} {prev₀ : List Pi
   · exact Or.inr (Or.inl (by simp [h]))
   · exact Or.inr (Or.inr h)
 
-/-- the full termination statement (NOT proved): with a positive increment some per-voter budget makes
-    the outcome infeasible or exhaustive over the buyable projects -/
-def iterated_terminates_FullStatement : Prop :=
-  ∀ (V : VCtx) (I : Inst) (init : List Pid) (order : List Pid → Except Err (List Pid)) (inc b0 : Rat)
-    (prev₀ : List Pid), 0 < inc → (∀ b, ∃ W, MES.runAt V I init order b = .ok W) →
-    ∃ N : Nat, ∀ fuel, N < fuel → ∃ W, MES.iterated V I init order inc fuel b0 prev₀ = .ok W
+/- The full termination statement — with a positive increment some per-voter budget makes the outcome
+   exhaustive over the buyable projects, so some fuel suffices — is PROVED in
+   `PabuProofs/Properties/C09Termination.lean`: `C09.iterated_terminates` (and `_explicit`: fuel `N + 1`
+   when `Σ_{p ∈ initPool} cost p ≤ b0 + N·inc`; `_tie` for the shipped tie-breaking rules;
+   `iteratedAll_terminates*` for the irresolute variant).  (The former
+   `def iterated_terminates_FullStatement`, which put no condition on the order function, is replaced by
+   those theorems; in that generality it is false: `C09.iterated_terminates_needs_order_hyps`.) -/
 
 /-- the loop really can fail to stop: if every outcome is feasible and not exhaustive over the pool
     (for instance `inc = 0` and the first outcome is such), every fuel runs out -/
